@@ -1,4 +1,4 @@
-/-! Prototype: L0 mirror of internal/fastcsv/csv.go with a read schedule. -/
+/-! L0 mirror of internal/fastcsv/csv.go (bufferedReader with capacity and stale bytes, read schedule, fault position). -/
 namespace Csv
 
 abbrev Byte := UInt8
@@ -10,6 +10,8 @@ structure Src where
   sched : List Nat      -- requested max chunk sizes; when exhausted: deliver all
   failAt : Option Nat := none   -- fail on the k-th Read call (0-based) with a non-EOF error
   calls : Nat := 0
+  eofWithData : Bool := false   -- the underlying reader reports EOF together with its last data
+  wrapEof : Bool := false       -- eofReaderWrapper.isEof: the underlying reader is not called again
 deriving Repr
 
 inductive RErr | eof | fail deriving Repr, DecidableEq
@@ -23,12 +25,14 @@ structure Buf where
 deriving Repr
 
 def Src.read (s : Src) (room : Nat) : (List Byte × Option RErr × Src) :=
-  if s.failAt == some s.calls then ([], some .fail, { s with calls := s.calls + 1 })
+  if s.wrapEof then ([], some .eof, s)
+  else if s.failAt == some s.calls then ([], some .fail, { s with calls := s.calls + 1 })
   else if s.rest.isEmpty then ([], some .eof, { s with calls := s.calls + 1 })
   else
     let want := match s.sched with | [] => s.rest.length | k :: _ => k
     let n := min (min want room) s.rest.length
-    (s.rest.take n, none, { s with rest := s.rest.drop n, sched := s.sched.drop 1, calls := s.calls + 1 })
+    let atEnd : Bool := s.eofWithData && n == s.rest.length && n > 0
+    (s.rest.take n, none, { s with rest := s.rest.drop n, sched := s.sched.drop 1, calls := s.calls + 1, wrapEof := atEnd })
 
 def writeAll (a : Array Byte) (off : Nat) : List Byte → Array Byte
   | [] => a
@@ -125,7 +129,7 @@ def quotedLoop (fuel : Nat) (b : Buf) (delim : Byte) (start writeCursor quoteCou
       let (b, e) := b.more
       match e with
       | some err => .ok (b.slice start writeCursor, true, some err, b)
-      | none => body b
+      | none => quotedLoop fuel b delim start writeCursor quoteCount   -- `for cursor+1 >= len { more() }`
     else body b
 
 def nextQuoted (fuel : Nat) (b : Buf) (delim : Byte) : Out (List Byte × Bool × Option RErr × Buf) :=
@@ -190,9 +194,9 @@ def readAllLoop (fuel n : Nat) (r : Reader) (acc : List (List (List Byte))) : Ou
     | .ok (r, true) => readAllLoop fuel n r (acc ++ [r.row])
     | .ok (r, false) => .ok (acc, r.fs.err)
 
-def readAll (doc : List Byte) (sched : List Nat) (delim : Byte := 44) (cap : Nat := 1024) : Out (List (List (List Byte)) × Option RErr) :=
-  let fuel := 4 * doc.length + 64
-  let r : Reader := { fs := { buf := { data := Array.replicate cap 0, len := 0, cursor := 0, src := { rest := doc, sched := sched } }, delim := delim } }
+def readAll (doc : List Byte) (sched : List Nat) (delim : Byte := 44) (cap : Nat := 1024) (failAt : Option Nat := none) (eofWithData : Bool := false) : Out (List (List (List Byte)) × Option RErr) :=
+  let fuel := 8 * doc.length + 64
+  let r : Reader := { fs := { buf := { data := Array.replicate cap 0, len := 0, cursor := 0, src := { rest := doc, sched := sched, failAt := failAt, eofWithData := eofWithData } }, delim := delim } }
   readAllLoop fuel fuel r []
 
 def render (o : Out (List (List (List Byte)) × Option RErr)) : String :=
